@@ -76,6 +76,75 @@ def _inner(H, W, base, pattern=0):
     return s, BoolInnerGridFrame(s, H, W)
 
 
+# Histories: a call that FAILS must leave nothing behind.  Before the ordinary checks of a frame size, every public entry that
+# derives a lattice graph from a frame is called with malformed frames of exactly that size (an edge array one row / one column
+# short, passed with the `horizontal=` / `vertical=` constructor arguments, on a throw-away solver); whatever those calls do
+# (IndexError is the usual outcome), the fresh, well-formed frames examined afterwards must still agree with the geometry.
+HISTORY_MAX = 4              # every size 0x0 .. 4x4
+HISTORY_LARGE = [(300, 2)]   # and one long thin one
+FAIL_LIMIT = 20.0            # seconds per failing call
+
+
+def _has_history(H, W):
+    return (0 <= H <= HISTORY_MAX and 0 <= W <= HISTORY_MAX) or (H, W) in HISTORY_LARGE
+
+
+def _malformed_shapes(H, W):
+    """(label, shape of `horizontal`, shape of `vertical`) for a H x W frame: exactly one array one row / one column short."""
+    good_h, good_v = (H + 1, W), (H, W + 1)
+    out = [("horizontal-row-short", (H, W), good_v), ("vertical-col-short", good_h, (H, W))]
+    if W >= 1:
+        out.append(("horizontal-col-short", (H + 1, W - 1), good_v))
+    if H >= 1:
+        out.append(("vertical-row-short", good_h, (H - 1, W + 1)))
+    return out
+
+
+def _failing_calls(H, W, ctx=None):
+    """Calls with malformed frames of size H x W through every public entry that builds the lattice graph of a frame.  -> the list of
+    (entry, malformation, outcome); outcomes are only recorded (the property says nothing about malformed frames), except that a
+    call that does not return is a RealTimeout."""
+    import cspuz
+    from cspuz import graph as G
+    from cspuz.grid_frame import BoolGridFrame, BoolInnerGridFrame
+
+    def frame(label, hs, vs):
+        s = cspuz.Solver()
+        return s, BoolGridFrame(s, H, W, horizontal=s.bool_array(hs), vertical=s.bool_array(vs))
+
+    def inner(label, hs, vs):
+        # the board whose dual is the malformed H x W frame: dual() swaps the two arrays
+        s = cspuz.Solver()
+        return s, BoolInnerGridFrame(s, H + 1, W + 1, horizontal=s.bool_array(vs), vertical=s.bool_array(hs))
+
+    def division(s, f):
+        return G.division_connected_variable_groups_with_borders(s, group_size=s.int_array((H + 1, W + 1), 1, (H + 1) * (W + 1)), is_border=f)
+
+    entries = [
+        ("_from_grid_frame", frame, lambda s, f: G._from_grid_frame(f)),
+        ("active_edges_single_cycle", frame, lambda s, f: G.active_edges_single_cycle(s, f)),
+        ("single_loop", frame, lambda s, f: f.single_loop()),
+        ("active_edges_single_path", frame, lambda s, f: G.active_edges_single_path(s, f)),
+        ("active_edges_connected_crossable", frame, lambda s, f: G.active_edges_connected_crossable(s, f)),
+        ("division_connected_variable_groups_with_borders", inner, division),
+        ("_from_grid_frame(inner.dual())", inner, lambda s, f: G._from_grid_frame(f.dual())),
+    ]
+    log = []
+    for (label, hs, vs) in _malformed_shapes(H, W):
+        for (name, mk, call) in entries:
+            try:
+                s, f = mk(label, hs, vs)
+                core.with_timeout(FAIL_LIMIT, call, s, f)
+                r = "returned"
+            except Exception as e:  # noqa: BLE001 - the call is allowed to fail; RealTimeout (a BaseException) goes through
+                r = core.err_name(e)
+            log.append((name, label, r))
+            if ctx is not None:
+                ctx.count("failing-call:" + r)
+                ctx.case({"frame": [H, W], "failing_call": name, "malformed": label, "real": r}, ("failing-call", H, W, name, label))
+    return log
+
+
 def _ident(e):
     from cspuz.expr import BoolVar
     if isinstance(e, BoolVar):
@@ -179,11 +248,15 @@ class Geom:
         return sorted((i, tuple(sorted((self.point_index(p[0]), self.point_index(p[1]))))) for (i, _, p, _) in self.segs)
 
 
-def _oracle_checks(H, W, base, pattern=0):
-    """Yield (op, args, real, expected) for every observation on one real frame that contradicts the geometry."""
+def _oracle_checks(H, W, base, pattern=0, history=True):
+    """Yield (op, args, real, expected) for every observation on one real frame that contradicts the geometry.  For the sizes of
+    `_has_history` the failing calls on malformed frames of the same size come first (in a fresh process they are the first
+    requests for that size); the frame examined is created afterwards."""
     from cspuz import graph as G
     from cspuz.grid_frame import BoolGridFrame, BoolInnerGridFrame
     g = Geom(H, W, base)
+    if history and _has_history(H, W):
+        _failing_calls(H, W)
     s, f = _frame(H, W, base, pattern)
     for Y in _axis(2 * H):
         for X in _axis(2 * W):
@@ -249,9 +322,13 @@ def _oracle_checks(H, W, base, pattern=0):
         yield ("dual", [], ["err", core.err_name(ex)], "no exception")
 
 
-def _inner_oracle_checks(Hb, Wb, base, pattern=0):
-    """A fresh BoolInnerGridFrame of a Hb x Wb board (Hb, Wb >= 1): its dual frame has the board cells as points."""
+def _inner_oracle_checks(Hb, Wb, base, pattern=0, history=True):
+    """A fresh BoolInnerGridFrame of a Hb x Wb board (Hb, Wb >= 1): its dual frame has the board cells as points.  (Preceded by
+    the failing calls of `_failing_calls` for the size of the dual frame, as in `_oracle_checks`.)"""
+    from cspuz import graph as G
     from cspuz.grid_frame import BoolGridFrame
+    if history and _has_history(Hb - 1, Wb - 1):
+        _failing_calls(Hb - 1, Wb - 1)
     s, gi = _inner(Hb, Wb, base, pattern)
     # borders: hb(y,x) between cells (y,x)|(y+1,x) first (row-major), then vb(y,x) between (y,x)|(y,x+1)
     borders = {}
@@ -304,6 +381,16 @@ def _inner_oracle_checks(Hb, Wb, base, pattern=0):
         r = _many(lambda: list(iter(gi)))
         if sorted(map(str, r)) != sorted(map(str, borders.values())) or r != _many(lambda: list(iter(d))):
             yield ("inner-iter", [], r, sorted(borders.values()))
+        # the graph the division constraint derives from the board: one vertex per cell (row-major), one edge per border
+        edges, gr = G._from_grid_frame(gi.dual())
+        r = sorted((_ident(e), tuple(sorted(ab))) for e, ab in zip(edges, gr.edges))
+        e = sorted((i, tuple(sorted(p[0] * Wb + p[1] for p in k))) for k, i in borders.items())
+        if gr.num_vertices != Hb * Wb or len(edges) != len(gr.edges):
+            yield ("inner-dual-graph-size", [], [gr.num_vertices, len(edges), len(gr.edges)], [Hb * Wb, len(e), len(e)])
+        if r != e:
+            rset, eset = set(r), set(e)
+            bad = [x for x in r if x not in eset] + [x for x in e if x not in rset]
+            yield ("inner-dual-graph", [], r if len(r) < 12 else bad[:6], e if len(r) < 12 else bad[:6])
     except Exception as ex:  # noqa: BLE001
         yield ("inner-dual", [], ["err", core.err_name(ex)], "no exception")
 
@@ -315,24 +402,29 @@ def _sig(op):
 def _finding(H, W, base, pattern, op, args, real, expected, inner=False):
     what = (f"{'BoolInnerGridFrame' if inner else 'BoolGridFrame'}(solver, {H}, {W}) created after {base} variables: "
             f"{op}{tuple(args) if args else ''} gives {sx(real)} but the geometry says {sx(expected)}")
+    fh, fw = (H - 1, W - 1) if inner else (H, W)
+    if _has_history(fh, fw):
+        what += (f" [history: before this fresh, well-formed frame was created, the graph entries (_from_grid_frame, active_edges_single_cycle"
+                 f" / _single_path / _connected_crossable, single_loop, division_connected_variable_groups_with_borders) were called with "
+                 f"malformed {fh}x{fw} frames (horizontal / vertical one row or one column short), each call in try/except]")
     return Finding(_sig(op), what, {"H": H, "W": W, "base": base, "pattern": pattern, "op": op, "args": args,
                                     "real": real, "expected": expected, "inner": inner})
 
 
 def search(ctx, why):
-    """Every frame 0x0 .. 3x3 (and every inner frame 1x1 .. 4x4), every coordinate with a margin of 3, two variable
-    offsets; then the long thin frames of LARGE_FRAMES / LARGE_INNER (coordinates: windows around 0, the middle, 256/257 and the
+    """Every frame 0x0 .. 4x4 (and every inner frame 1x1 .. 5x5), every coordinate with a margin of 3, two variable
+    offsets, each frame size preceded by failing calls of the graph entries on malformed frames of that size (`_failing_calls`); then the long thin frames of LARGE_FRAMES / LARGE_INNER (coordinates: windows around 0, the middle, 256/257 and the
     far boundary, every one a fresh int object): the real accessors against the plain-Python geometry.  One finding per kind
     of accessor (the smallest frame showing it)."""
     found = {}
     for base, pattern in ((0, 0), (5, 0b10110)):
-        for H in range(0, 4):
-            for W in range(0, 4):
+        for H in range(0, HISTORY_MAX + 1):
+            for W in range(0, HISTORY_MAX + 1):
                 for (op, args, real, expected) in _oracle_checks(H, W, base, pattern):
                     if _sig(op) not in found:
                         found[_sig(op)] = _finding(H, W, base, pattern, op, args, real, expected)
-        for H in range(1, 5):
-            for W in range(1, 5):
+        for H in range(1, HISTORY_MAX + 2):
+            for W in range(1, HISTORY_MAX + 2):
                 for (op, args, real, expected) in _inner_oracle_checks(H, W, base, pattern):
                     if _sig(op) not in found:
                         found[_sig(op)] = _finding(H, W, base, pattern, op, args, real, expected, inner=True)
@@ -384,10 +476,17 @@ def correspond(ctx):
         "all_edges(), iter(), the two arrays, dual(), dual().dual(), iter(dual()), graph._from_grid_frame; every "
         f"BoolInnerGridFrame(solver, H', W') with 1 <= H', W' <= {maxdim + 1}: arrays, dual() addressed at every coordinate with "
         "margin, dual().dual(), iter(); real variable ids / exception names vs Lean model vs executable Lean spec; a small "
-        "stream of ill-typed calls. Long thin frames " + str(LARGE_FRAMES) + " and inner frames " + str(LARGE_INNER) + ": the same "
+        "stream of ill-typed calls. Histories: before all of this, for every size 0x0..4x4 and " + str(HISTORY_LARGE) + ", the graph entries "
+        "(_from_grid_frame, active_edges_single_cycle / _single_path / _connected_crossable, single_loop, "
+        "division_connected_variable_groups_with_borders) are called in try/except (time-limited) with malformed frames of that size "
+        "(horizontal / vertical one row or one column short); the well-formed frames are created afterwards. Long thin frames " + str(LARGE_FRAMES) + " and inner frames " + str(LARGE_INNER) + ": the same "
         "accessors (plus cell/vertex_neighbors of an inner frame's dual) at coordinates in windows around 0, the middle, 256/257 "
         "and the far boundary, each coordinate a fresh int object (never the object stored in frame.height/width). Non-trivial+distinct = (H, W, accessor, coordinates) whose result is a variable, a "
         "non-empty list or an exception")
+    # histories: the failing calls on malformed frames come first, for every size 0x0 .. 4x4 and one long thin size, before any
+    # well-formed frame of that size has been handed to the graph code in this process
+    for (H, W) in [(H, W) for H in range(0, HISTORY_MAX + 1) for W in range(0, HISTORY_MAX + 1)] + HISTORY_LARGE:
+        _failing_calls(H, W, ctx)
     drv = core.Driver()
     lines = []
     plan = []  # (tag, H, W, base, args, index of first line)
